@@ -11,7 +11,7 @@ from mpsa.match import Scope, is_name, is_none, local_ctor, method_of, unwrap_aw
 from mpsa.report import Checker
 
 from . import server
-from .common import SERVLET, WORKER, build_cfg, make_fallible, tuple_item
+from .common import SERVLET, WORKER, build_cfg, find_unpack, make_fallible, tuple_item
 from .fifo import QUEUE_CTORS
 from .fresh import _value_names, fresh_chain
 
@@ -227,11 +227,9 @@ def check_ensemble(ck: Checker, rid: str):
                 getn = n
     ck.need(getn is not None, f'{deq.key}: no get on the member queue `{qv}`')
     vname = getn.ast.targets[0].id
-    for n in dcfg.nodes:
-        if enum.id in n.loops and isinstance(n.ast, ast.Assign) and isinstance(n.ast.targets[0], ast.Tuple) and is_name(n.ast.value, vname):
-            unp = n
-    ck.need(unp is not None, f'{deq.key}: member message not unpacked')
-    uid, y = [e.id for e in unp.ast.targets[0].elts]
+    unp = find_unpack(dcfg, enum.id, vname)
+    ck.need(unp is not None and len(unp.names) == 2 and all(unp.names), f'{deq.key}: member message not unpacked')
+    uid, y = unp.names
     # lookup
     look = None
     for n in dcfg.nodes:
@@ -267,7 +265,16 @@ def check_ensemble(ck: Checker, rid: str):
     if slot is not None:
         def is_inc(n: Node):
             a = n.ast
-            return 1 if isinstance(a, ast.AugAssign) and isinstance(a.op, ast.Add) and isinstance(a.value, ast.Constant) and a.value.value == 1 and isinstance(a.target, ast.Subscript) and is_name(a.target.value, zname) else 0
+            if isinstance(a, ast.AugAssign) and isinstance(a.op, ast.Add) and isinstance(a.value, ast.Constant) and a.value.value == 1 and isinstance(a.target, ast.Subscript) and is_name(a.target.value, zname):
+                return 1
+            # `z['n'] = z['n'] + 1`: the same increment written out
+            if isinstance(a, ast.Assign) and len(a.targets) == 1 and isinstance(a.targets[0], ast.Subscript) and is_name(a.targets[0].value, zname) and isinstance(a.value, ast.BinOp) and isinstance(a.value.op, ast.Add):
+                ops = [a.value.left, a.value.right]
+                one = [o for o in ops if isinstance(o, ast.Constant) and o.value == 1 and not isinstance(o.value, bool)]
+                same = [o for o in ops if norm_text(o) == norm_text(a.targets[0])]
+                if len(one) == 1 and len(same) == 1:
+                    return 1
+            return 0
 
         other = [n for n in dcfg.nodes if isinstance(n.ast, (ast.Assign, ast.AugAssign)) and not is_inc(n) and any(isinstance(t, ast.Subscript) and is_name(t.value, zname) and isinstance(t.slice, ast.Constant) and t.slice.value == 'n' for t in (n.ast.targets if isinstance(n.ast, ast.Assign) else [n.ast.target]))]
         for n in other:
@@ -286,7 +293,8 @@ def check_ensemble(ck: Checker, rid: str):
             for n in walk_shallow_func(deq.node):
                 if isinstance(n, ast.Assign) and isinstance(n.targets[0], ast.Name) and n.targets[0].id == rd and isinstance(n.value, ast.Call) and dotted(n.value.func) == 'len' and dsc.canon(n.value.args[0]) == 'self._qouts':
                     nn_ok = True
-            if not (isinstance(c_.ast.ops[0], ast.Eq) and nn_ok):
+            # with one increment per answer (decided above) and the entry removed at completion, `>=` is the same test
+            if not (isinstance(c_.ast.ops[0], (ast.Eq, ast.GtE)) and nn_ok):
                 probs.append(f'completion test `{norm_text(c_.ast)}` does not compare the counter for equality with the number of members')
         ck.ob(rid, deq, slot.ast, not probs, '; '.join(sorted(set(probs))) if probs else 'one counter increment per stored slot on every path; a request completes when the counter equals the number of members')
     # emits: qout.put((uid, ...)) must be preceded by exactly one catalog.pop(uid) in this message's processing
